@@ -195,6 +195,9 @@ def run_all(tier, seed, want=("text", "ceval")):
     if len(got) != len(lines):
         raise common.Infra(f"capi driver: {len(lines)} in {len(got)} out")
     for l, e, g, c in zip(lines, expect, got, ctxs):
+        if g.startswith("PROOF-MODEL-DIFFERS"):
+            mism.append(common.Failure("tie", "capi-tie:proof-model", f"{c.get('type', '')[:300]}: {g}", c))
+            continue
         if e is None:
             continue
         if e != g:
@@ -479,6 +482,9 @@ def run_c07(tier, seed):
     if len(got) != len(lines):
         raise common.Infra(f"capi driver: {len(lines)} in {len(got)} out")
     for l, e, g, c in zip(lines, expect, got, ctxs):
+        if g.startswith("PROOF-MODEL-DIFFERS"):
+            mism.append(common.Failure("tie", "capi-tie:proof-model", f"{c.get('type', '')[:300]}: {g}", c))
+            continue
         if e is None:
             continue
         if isinstance(e, tuple):
